@@ -274,6 +274,26 @@ func init() {
 		reProbes = append(reProbes, next...)
 		cur = next
 	}
+	// strings with blanks at the ends and inside
+	reProbes = append(reProbes, " ", "a ", " a", "a b", "\ta", "a\n", " a ", "  ")
+}
+
+// blankPatterns: patterns whose matches begin or end with a blank (the enumerated alphabet has none).
+func blankPatterns() []string {
+	ends := []string{"", " ", `\t`, `\s`, "[ ]", `\n`, " +", "  "}
+	cores := []string{"a", "ab", "a b", "key:", ""}
+	var out []string
+	for _, pre := range ends {
+		for _, core := range cores {
+			for _, suf := range ends {
+				if pre == "" && suf == "" {
+					continue
+				}
+				out = append(out, pre+core+suf)
+			}
+		}
+	}
+	return out
 }
 
 func evalRegex(cs caseT) (string, string) {
@@ -402,6 +422,18 @@ func run(c *ev.Ctx) {
 	}
 	rec(nil)
 	// regex
+	for i, p := range blankPatterns() {
+		if !c.MineKey(fmt.Sprint("blank-pattern;", i)) || c.Expired() {
+			continue
+		}
+		cs := caseT{Kind: "regex", Pattern: p}
+		dir, desc := evalRegex(cs)
+		c.Eval(true)
+		c.Inc("regex_blank_patterns")
+		if dir != "" {
+			c.Violate(fmt.Sprintf("regex;%s;%q", dir, p), desc, cs)
+		}
+	}
 	buf := make([]byte, 0, L)
 	var rr func()
 	rr = func() {
